@@ -1,5 +1,6 @@
 //! seqx — bounded-exhaustive in-process enumerators against s4lib (engine E-SEQ).
 mod c02;
+mod c03;
 mod c16;
 mod out;
 mod text;
@@ -29,6 +30,13 @@ fn main() {
             c16::run(&tier)
         }
         "c16-long" => c16::run_long(),
+        "c03" => {
+            if let Some(r) = replay {
+                let v: serde_json::Value = serde_json::from_str(&std::fs::read_to_string(&r).unwrap()).unwrap();
+                std::process::exit(if c03::replay(&v) { 0 } else { 1 });
+            }
+            c03::run(&tier)
+        }
         "c02-corpus" => c02::corpus(args.get(2).expect("dir"), &tier),
         "c02" | "c12" => {
             if let Some(r) = replay {
